@@ -52,7 +52,7 @@ TIERS = {
     "C15": {"quick": (2000, 240), "thorough": (100000, 3000)},
     "C16": {"quick": (12000, 240), "thorough": (600000, 3000)},
     "C14": {"quick": (2500, 300), "thorough": (100000, 3600)},
-    "C13T": {"quick": (1500, 200), "thorough": (60000, 2400)},
+    "C13T": {"quick": (4000, 200), "thorough": (120000, 2400)},
     "C16T": {"quick": (6000, 200), "thorough": (200000, 2400)},
     "C09T": {"quick": (200, 200), "thorough": (12000, 2400)},
     "C15T": {"quick": (1500, 200), "thorough": (60000, 2400)},
